@@ -93,6 +93,8 @@ type tableWorld struct {
 	unit                                 int64
 	alignWake                            chan struct{}
 	alignWake2                           chan struct{}
+	chaseWake                            chan int64 // a slow delivery is holding the engine lock for this long
+	foc                                  string     // the property whose neighbourhood this run's workload is biased towards
 	rogueWake                            chan struct{}
 	lastRogueKey                         int64
 }
@@ -108,17 +110,29 @@ func (w *tableWorld) Name() string { return "table" }
 
 func (w *tableWorld) focus(p ...string) bool {
 	for _, x := range p {
-		if w.c.Job.Property == x {
+		if w.foc == x {
 			return true
 		}
 	}
 	return false
 }
 
+// altFoci: workloads biased towards another property's neighbourhood. Every oracle is evaluated in
+// every run, so one run in six borrows the bias of another check (swarm variation: a check must not
+// silently depend on its own workload's blind spots).
+var altFoci = []string{"", "C01", "C03", "C05", "C07", "C08", "C10", "C11", "C12", "C13", "C14", "C15", "C16"}
+
 func (w *tableWorld) drawCfg() {
 	c := w.c
 	f := w.focus
 	g := &w.cfg
+	w.foc = c.Job.Property
+	if v, ok := c.Ov("focus"); ok {
+		w.foc = v
+	} else if c.CfgBool("alt_focus", 1, 6) {
+		w.foc = altFoci[c.CfgInt("alt_focus_i", 0, len(altFoci)-1)]
+	}
+	c.Cfg["focus"] = w.foc
 	g.seats = c.CfgInt("seats", 2, 10)
 	if c.CfgBool("nine_seats", 1, 4) {
 		g.seats = 9
@@ -211,6 +225,9 @@ func (w *tableWorld) drawCfg() {
 	}
 	if f("C10") {
 		g.atomicCalls = true
+		// "submitted sequentially or concurrently": a quarter of the runs submit the actions of all seats
+		// at the same instant, not atomically
+		g.stampede = c.CfgBool("c10_stampede", 1, 4)
 	}
 	if f("C13") {
 		g.atomicCalls = c.CfgBool("c13_atomic", 2, 3)
@@ -221,6 +238,8 @@ func (w *tableWorld) drawCfg() {
 	}
 	if f("C16") {
 		g.stampede = c.CfgBool("stampede", 4, 5)
+	}
+	if f("C16", "C10") {
 		if g.stampede {
 			g.judge, g.midLeave, g.pauseClose, g.backendF, g.slowSub = false, false, false, false, false
 		}
@@ -387,6 +406,10 @@ func (w *tableWorld) Run(c *Ctx) {
 		w.alignWake2 = make(chan struct{}, 1)
 		simrt.Go(0, "aligned", func() { w.alignedTask(w.alignWake, "admin.aligned") })
 		simrt.Go(0, "aligned2", func() { w.alignedTask(w.alignWake2, "admin.aligned2") })
+		if g.pauseClose && g.slowSub {
+			w.chaseWake = make(chan int64, 1)
+			simrt.Go(0, "chaser", w.chaserTask)
+		}
 	}
 	// horizon
 	for c.NowMs() < g.horizonMs && !c.Stopped() {
@@ -456,6 +479,18 @@ func (w *tableWorld) hookCallbacks() {
 				c.Fault("F8_slow_subscriber")
 				slow = int64(1 + w.netSt.Draw(3000))
 				w.mon.slowness(slow)
+				if w.chaseWake != nil {
+					// between hands is where the engine's own next move (continue handler, open-game gate)
+					// queues up behind the lock; during a hand a chase is rare
+					v := slow
+					if snap.State.GameState != nil && snap.State.Status != pt.TableStateStatus_TableGameSettled {
+						v = -slow
+					}
+					select {
+					case w.chaseWake <- v:
+					default:
+					}
+				}
 			}
 			w.deliver(snap)
 		})
@@ -1340,7 +1375,10 @@ func (w *tableWorld) alignedTask(wake chan struct{}, stream string) {
 			}
 		case 5:
 			// the competition service repeats its set-up call for the coming hand
-			if tb.State.GameState == nil && tb.State.StartAt != -1 && w.focus("C07", "C09", "") {
+			// (a repeat only: the engine has already set the coming hand up itself. Setting a hand up on
+			// behalf of an engine that is still deciding whether to pause would be the caller's error.)
+			ogm := pt.VerifOpenGameManager(w.eng)
+			if tb.State.GameState == nil && tb.State.StartAt != -1 && w.focus("C07", "C09", "") && ogm != nil && ogm.GetState().GameCount == tb.State.GameCount+1 {
 				parts := map[string]int{}
 				for _, p := range tb.State.PlayerStates {
 					if p.Bankroll > 0 && p.IsIn {
@@ -1354,6 +1392,61 @@ func (w *tableWorld) alignedTask(wake chan struct{}, stream string) {
 					w.eng.SetUpTableGame(tb.State.GameCount+1, parts)
 				}
 			}
+		}
+	}
+}
+
+// chaserTask places a close / release / pause inside the window in which a slow subscriber keeps the
+// engine lock held (F5 aimed at F8): whatever the engine wanted to do meanwhile is queued behind
+// that lock and resumes on a table that has been closed in between.
+func (w *tableWorld) chaserTask() {
+	c := w.c
+	st := c.St.Get("admin.chaser")
+	for c.NowMs() < w.cfg.faultEndMs && !c.Stopped() {
+		var slow int64
+		select {
+		case slow = <-w.chaseWake:
+		case <-time.After(5 * time.Second):
+			continue
+		}
+		one := 8
+		if w.focus("C07") {
+			one = 3
+		}
+		if slow < 0 {
+			slow = -slow
+			one = 60
+		}
+		if !st.Chance(1, one) {
+			continue
+		}
+		simrt.Sleep(0, time.Duration(1+st.Draw(int(slow)))*time.Millisecond)
+		if c.Stopped() || w.closedAtMs != 0 || w.releasedAtMs != 0 {
+			return
+		}
+		switch st.Pick(50, 30, 20) {
+		case 0:
+			c.Fault("F5_close")
+			w.mon.adminEvent("close")
+			w.eng.CloseTable()
+			w.closedAtMs = c.NowMs()
+			w.mon.adminEvent("closed")
+			c.Logf("CLOSE (during a slow delivery)")
+			return
+		case 1:
+			c.Fault("F5_release")
+			w.mon.adminEvent("release")
+			w.eng.ReleaseTable()
+			w.releasedAtMs = c.NowMs()
+			w.mon.adminEvent("released")
+			c.Logf("RELEASE (during a slow delivery)")
+			return
+		case 2:
+			c.Fault("F5_pause")
+			w.pausedAtMs = c.NowMs()
+			w.mon.adminEvent("pause")
+			w.eng.PauseTable()
+			c.Logf("PAUSE (during a slow delivery)")
 		}
 	}
 }
